@@ -97,11 +97,35 @@ def _mk_int_behaviour(ns):
     return beh
 
 
+WARM = [False]
+
+
+def _warm_node(node) -> None:
+    from hypergraph import Graph
+
+    try:
+        Graph([node], name="warmup")
+        node.inputs, node.outputs, node.definition_hash
+        for p in node.inputs:
+            node.has_default_for(p)
+            node.get_input_type(p)
+        if hasattr(node, "map_inputs_to_params"):
+            node.map_inputs_to_params({p: None for p in node.inputs})
+    except Exception:  # noqa: BLE001 - warm-up only
+        pass
+
+
 def apply_renames(node, ns):
+    if WARM[0]:
+        _warm_node(node)
     for batch in ns.get("rename_in", []) or []:
         node = node.with_inputs(dict(batch))
+        if WARM[0]:
+            _warm_node(node)
     for batch in ns.get("rename_out", []) or []:
         node = node.with_outputs(dict(batch))
+        if WARM[0]:
+            _warm_node(node)
     if ns.get("rename_name"):
         node = node.with_name(ns["rename_name"])
     return node
@@ -114,11 +138,15 @@ def build_node(ns: dict, path: str, built: Built, *, src_toggle=[0]):
     name = ns["name"]
     fid = ns.get("fid") or fid_of(path, name)
     if k == "sub":
-        sub = build_program(ns["prog"], path=fid_of(path, name))
+        was_warm = WARM[0]
+        sub = build_program(ns["prog"], path=fid_of(path, name), warm_inputs=({} if was_warm else None))
+        WARM[0] = was_warm
         built.subs[name] = sub
         node = sub.graph.as_node(name=name) if ns.get("as_name", True) else sub.graph.as_node()
         m = ns.get("map")
         node = apply_renames(node, ns)
+        if m and WARM[0]:
+            _warm_node(node)
         if m:
             node = node.map_over(*m["over"], mode=m.get("mode", "zip"), error_handling=m.get("err", "raise"), clone=m.get("clone", False))
         return node
@@ -185,8 +213,39 @@ def build_node(ns: dict, path: str, built: Built, *, src_toggle=[0]):
     return apply_renames(node, ns)
 
 
-def build_program(spec: dict, path: str | None = None) -> Built:
-    """Build the Graph of a program spec (recursively for nested programs)."""
+def _warm_run(g, inputs) -> None:
+    """Use an object before deriving from it: lazily computed state (cached properties,
+    memo tables) gets filled, so that a derivation that forgets to invalidate it shows."""
+    import asyncio
+
+    from hypergraph import AsyncRunner
+
+    saved = rt.CUR
+    rt.CUR = rt.Rec()
+    saved_sched = rt.SCHED
+    rt.SCHED = None
+    try:
+        for attr in ("inputs", "controlled_by", "self_producers", "definition_hash", "outputs"):
+            getattr(g, attr, None)
+        import warnings
+
+        with warnings.catch_warnings():
+            warnings.simplefilter("ignore")
+            try:
+                asyncio.run(AsyncRunner().run(g, dict(inputs), error_handling="continue", max_iterations=50))
+            except BaseException:  # noqa: BLE001 - warm-up only
+                pass
+    finally:
+        rt.CUR = saved
+        rt.SCHED = saved_sched
+
+
+def build_program(spec: dict, path: str | None = None, warm_inputs: dict | None = None) -> Built:
+    """Build the Graph of a program spec (recursively for nested programs).
+
+    warm_inputs: when given, every object is *used* before anything is derived from
+    it (nodes are placed in a throw-away graph before being renamed/mapped; the base
+    graph is run once before bind/with_entrypoint/select are applied)."""
     from hypergraph import Graph
 
     path = spec["name"] if path is None else path
@@ -194,6 +253,7 @@ def build_program(spec: dict, path: str | None = None) -> Built:
     built.fids = {}
     built.shared_fns = {}
     nodes = []
+    WARM[0] = warm_inputs is not None
     for ns in spec["nodes"]:
         n = build_node(ns, path, built)
         built.nodes[ns["name"]] = n
@@ -202,6 +262,10 @@ def build_program(spec: dict, path: str | None = None) -> Built:
     if spec.get("edges") is not None:
         kw["edges"] = [tuple(e) for e in spec["edges"]]
     g = Graph(nodes, name=spec["name"], strict_types=bool(spec.get("strict")), **kw)
+    if warm_inputs is not None:
+        wi = dict(spec.get("bind") or {})
+        wi.update(warm_inputs)
+        _warm_run(g, wi)
     if spec.get("bind"):
         g = g.bind(**spec["bind"])
     if spec.get("entry"):
